@@ -6,6 +6,7 @@ import (
 	"os"
 	"strings"
 	"sync"
+	"time"
 
 	"cedarverif/internal/core"
 )
@@ -18,6 +19,8 @@ type Stats struct {
 	Calls, Blocked, CtxEnded, TimeoutEnded, Handshakes int64
 	Reads                                              int64
 	HandlerRuns, Cancels, Panics                       int64
+	ClientSeconds, SlowestSeconds                      float64
+	Slowest                                            string
 	KnownBy                                            map[string]int64
 	KnownExample                                       map[string]string
 }
@@ -71,6 +74,15 @@ func minimalActs(acts []string) (string, bool) {
 // RunCJob runs a client script (twice with long waits if it differs) and records the verdict.
 func RunCJob(c *core.Ctx, t *CTable, j CJob, st *Stats) {
 	var res *CResult
+	t0 := time.Now()
+	defer func() {
+		st.mu.Lock()
+		st.ClientSeconds += time.Since(t0).Seconds()
+		if d := time.Since(t0).Seconds(); d > st.SlowestSeconds {
+			st.SlowestSeconds, st.Slowest = d, j.Script.Key()
+		}
+		st.mu.Unlock()
+	}()
 	for try := 0; try < 3; try++ {
 		res = RunC(t, j.Script, j.P)
 		if res.EnvErr == nil {
@@ -105,23 +117,29 @@ func RunCJob(c *core.Ctx, t *CTable, j CJob, st *Stats) {
 	}
 	st.mu.Unlock()
 	if res.Diff != "" {
-		// second opinion with long waits: a loaded machine must not look like a defect
-		j2 := j
-		j2.P.Slow = true
-		st.mu.Lock()
-		st.Retried++
-		st.mu.Unlock()
-		res2 := RunC(t, j.Script, j2.P)
-		if res2.EnvErr != nil {
-			c.Broken("G07 client replay: environment could not be set up: %v", res2.EnvErr)
+		// second and third opinion with long and very long waits: a loaded machine must not
+		// look like a defect (DESIGN section 5: only a difference that reproduces is reported)
+		// (a difference is reported only if the long and the very long run show it at the same step)
+		diffs := []int{res.DiffStep}
+		for level := 1; level <= 2 && res.Diff != ""; level++ {
+			j2 := j
+			j2.P.Level = level
+			st.mu.Lock()
+			st.Retried++
+			st.mu.Unlock()
+			res = RunC(t, j.Script, j2.P)
+			if res.EnvErr != nil {
+				c.Broken("G07 client replay: environment could not be set up: %v", res.EnvErr)
+				return
+			}
+			diffs = append(diffs, res.DiffStep)
+		}
+		res2 := res
+		if res2.Diff != "" && diffs[1] != diffs[2] {
+			c.Broken("G07 client replay: non-reproducible difference on %s: steps %v, last %q", j.Script.Key(), diffs, res2.Diff)
 			return
 		}
-		if res2.Diff == "" {
-			res = res2
-		} else if res2.DiffStep != res.DiffStep {
-			c.Broken("G07 client replay: non-reproducible difference on %s: %q vs %q", j.Script.Key(), res.Diff, res2.Diff)
-			return
-		} else {
+		if res2.Diff != "" {
 			call := j.Script.Calls[res.DiffStep]
 			what := "peer-visible"
 			if strings.HasPrefix(res2.Diff, "caller-visible") {
@@ -182,22 +200,27 @@ func RunSJob(c *core.Ctx, t *STable, j SJob, st *Stats) {
 	}
 	st.mu.Unlock()
 	if res.Diff != "" {
-		j2 := j
-		j2.P.Slow = true
-		st.mu.Lock()
-		st.Retried++
-		st.mu.Unlock()
-		res2 := RunS(t, j.Steps, j2.P)
-		if res2.EnvErr != nil {
-			c.Broken("G07 server replay: environment could not be set up: %v", res2.EnvErr)
+		// (a difference is reported only if the long and the very long run show it at the same step)
+		diffs := []int{res.DiffStep}
+		for level := 1; level <= 2 && res.Diff != ""; level++ {
+			j2 := j
+			j2.P.Level = level
+			st.mu.Lock()
+			st.Retried++
+			st.mu.Unlock()
+			res = RunS(t, j.Steps, j2.P)
+			if res.EnvErr != nil {
+				c.Broken("G07 server replay: environment could not be set up: %v", res.EnvErr)
+				return
+			}
+			diffs = append(diffs, res.DiffStep)
+		}
+		res2 := res
+		if res2.Diff != "" && diffs[1] != diffs[2] {
+			c.Broken("G07 server replay: non-reproducible difference on %s: steps %v, last %q", SKey(j.Steps), diffs, res2.Diff)
 			return
 		}
-		if res2.Diff == "" {
-			res = res2
-		} else if res2.DiffStep != res.DiffStep {
-			c.Broken("G07 server replay: non-reproducible difference on %s: %q vs %q", SKey(j.Steps), res.Diff, res2.Diff)
-			return
-		} else {
+		if res2.Diff != "" {
 			s := j.Steps[res.DiffStep]
 			var hist []string
 			for _, p := range j.Steps[:res.DiffStep] {
@@ -315,7 +338,7 @@ func ReplayFile(c *core.Ctx, ct *CTable, stt *STable, st *Stats) {
 			c.Broken("bad client job")
 			return
 		}
-		j.P.Slow = false
+		j.P.Level = 0
 		RunCJob(c, ct, j, st)
 	case "ClientConn/server":
 		var j SJob
@@ -323,7 +346,7 @@ func ReplayFile(c *core.Ctx, ct *CTable, stt *STable, st *Stats) {
 			c.Broken("bad server job")
 			return
 		}
-		j.P.Slow = false
+		j.P.Level = 0
 		for i := 0; i < 10 && c.Failures() == 0 && !c.IsBroken(); i++ {
 			RunSJob(c, stt, j, st)
 		}
